@@ -540,13 +540,16 @@ def _walrus_program(p) -> str:
     val = {"zero": "0", "one": "1", "none": "None"}[p["value"]]
     test = {"name": "x", "not": "not x", "isnone": "x is None", "eq": "x == 1", "ne": "x != 1"}[p["test"]]
     reads = set(p["reads"])
-    core = ["x = compute()", f"if {test}:",
+    rhs = "compute()" if p.get("vkind", "atom") == "atom" else "compute() or fallback()"
+    core = [f"x = {rhs}", f"if {test}:",
             '    print("body", x)' if "body" in reads else '    print("body")',
             "else:",
             '    print("else", x)' if "else" in reads else '    print("else")']
     if "after" in reads:
         core.append('print("after", x)')
-    head = ["def compute():", '    print("compute")', f"    return {val}", "", ""]
+    if "nested" in reads:
+        core += ["def reader():", "    return x", 'print("nested", reader())']
+    head = ["def compute():", '    print("compute")', f"    return {val}", "", "", "def fallback():", '    print("fallback")', f"    return {val}", "", ""]
 
     def ind(lines, n=1):
         return [("    " * n + ln) for ln in lines]
@@ -598,7 +601,7 @@ def check_walrus(chk: Check) -> None:
     all_same, deviates, rewritten = True, 0, 0
     for (p, e, before, after), (o1, o2) in zip(jobs, outs):
         chk.count()
-        shape = f"{p['scope']}/{p['test']}/{p['value']}/reads={'+'.join(p['reads']) or 'none'}"
+        shape = f"{p['scope']}/{p['test']}/{p['value']}/{p.get('vkind', 'atom')}/reads={'+'.join(p['reads']) or 'none'}"
         if "EXC" in o1:
             raise tlc.TlcFailure(f"the generated walrus program [{shape}] does not run: {o1[:300]}")
         if after == before:
